@@ -21,7 +21,9 @@ CONSTANTS MaxFds,        \* kernel SCM_MAX_FD (253)
           CarryDesc,     \* design switch: descriptors of an Encode that was not sent are kept for the next packet
           CloseOnReject, \* design switch: receiver closes descriptors of a message it rejects
           RejectCtrunc,  \* design switch: a message whose control data was cut (MSG_CTRUNC) is rejected
-          AbsorbDesc     \* design switch: gob descriptors of a packet dropped for MSG_CTRUNC still reach the decoder
+          AbsorbDesc,    \* design switch: gob descriptors of a packet dropped for MSG_CTRUNC still reach the decoder
+          ValueHandover  \* design switch: a delivered message is a value of its own (FALSE: its descriptor list and
+                         \* credentials alias per-socket storage that the next receive overwrites)
 
 Types == {"A", "B"}
 Desc(t) == IF t = "A" THEN DescA ELSE DescB
@@ -37,8 +39,10 @@ VARIABLES layer,     \* "raw" | "gob"
           arrived, handed, closed,  \* descriptor ledger of the receiving process
           encKnown,  \* gob: types the encoder has described
           decKnown,  \* gob: types the decoder knows
-          pend       \* gob: types described by the encoder whose descriptors are not yet on the wire
-svars == <<layer, passcred, q, acc, dlv, lost, arrived, handed, closed, encKnown, decKnown, pend>>
+          pend,      \* gob: types described by the encoder whose descriptors are not yet on the wire
+          held       \* messages in the hands of the receiving caller: [orig, cur, seen]; orig = the message as it
+                     \* was delivered, cur = what the caller finds in it now, seen = the caller has looked
+svars == <<layer, passcred, q, acc, dlv, lost, arrived, handed, closed, encKnown, decKnown, pend, held>>
 
 \* a message: [id, len, val, nfds, fds, cred, typ]; len = payload bytes (gob: of the Data field),
 \* val = bytes of the gob value message, nfds = number of attached descriptors, fds = their
@@ -49,7 +53,7 @@ Init ==
   /\ layer \in {"raw", "gob"} /\ passcred \in BOOLEAN
   /\ q = <<>> /\ acc = <<>> /\ dlv = <<>> /\ lost = {}
   /\ arrived = 0 /\ handed = 0 /\ closed = 0
-  /\ encKnown = {} /\ decKnown = {} /\ pend = {}
+  /\ encKnown = {} /\ decKnown = {} /\ pend = {} /\ held = <<>>
 
 \* ------------------------------------------------------------------ sending
 NewDesc(m)  == IF m.typ \in encKnown THEN {} ELSE {m.typ}
@@ -80,7 +84,7 @@ Send(m, out) ==
        ELSE /\ UNCHANGED <<q, acc>>
             /\ pend' = IF layer = "gob" /\ CarryDesc THEN Carried(m) ELSE {}
   /\ encKnown' = IF layer = "gob" THEN encKnown \cup {m.typ} ELSE encKnown
-  /\ UNCHANGED <<layer, passcred, dlv, lost, arrived, handed, closed, decKnown>>
+  /\ UNCHANGED <<layer, passcred, dlv, lost, arrived, handed, closed, decKnown, held>>
 
 \* ------------------------------------------------------------------ receiving
 \* a receive request: [rbuf, want, free]; want = "M" (a type the message decodes into) | "X" (none does);
@@ -97,6 +101,16 @@ RecvImpl(p, r) ==
   ELSE IF layer = "raw" THEN (IF p.wire = 0 \/ p.wire > r.rbuf THEN "rej" ELSE "ok")  \* EOF | MSG_TRUNC
   ELSE IF ~Decodable(p) \/ r.want = "X" THEN "rej" ELSE "ok"
 
+\* aliasing: the descriptor list / credentials of an earlier message show those of the newest one
+Alias(h, m) == LET c == h.cur IN
+               [h EXCEPT !.cur = [c EXCEPT !.fds  = IF c.nfds > 0 /\ m.nfds > 0 THEN m.fds ELSE c.fds,
+                                           !.cred = IF c.cred # <<>> /\ m.cred # <<>> THEN m.cred ELSE c.cred]]
+\* the caller looks at the j-th message it was handed (at any later time, in any order)
+Inspect(j) ==
+  /\ j \in DOMAIN held /\ ~held[j].seen
+  /\ held' = [held EXCEPT ![j].seen = TRUE]
+  /\ UNCHANGED <<layer, passcred, q, acc, dlv, lost, arrived, handed, closed, encKnown, decKnown, pend>>
+
 Recv(r, out) ==
   /\ q # <<>>
   /\ LET p == Head(q) n == Installed(p, r) IN
@@ -104,9 +118,11 @@ Recv(r, out) ==
        /\ q' = Tail(q)
        /\ arrived' = arrived + n
        /\ IF out = "ok"
-            THEN dlv' = Append(dlv, p.m.id) /\ handed' = handed + n /\ UNCHANGED <<lost, closed>>
-            ELSE lost' = lost \cup {p.m.id} /\ closed' = closed + (IF CloseOnReject THEN n ELSE 0)
-                 /\ UNCHANGED <<dlv, handed>>
+            THEN /\ dlv' = Append(dlv, p.m.id) /\ handed' = handed + n /\ UNCHANGED <<lost, closed>>
+                 /\ held' = Append(IF ValueHandover THEN held ELSE [i \in DOMAIN held |-> Alias(held[i], p.m)],
+                                   [orig |-> p.m, cur |-> p.m, seen |-> FALSE])
+            ELSE /\ lost' = lost \cup {p.m.id} /\ closed' = closed + (IF CloseOnReject THEN n ELSE 0)
+                 /\ UNCHANGED <<dlv, handed, held>>
        \* the decoder sees the packet's bytes unless the socket layer dropped the packet
        /\ decKnown' = IF Room(p, r) \/ AbsorbDesc THEN decKnown \cup p.descs ELSE decKnown
   /\ UNCHANGED <<layer, passcred, acc, encKnown, pend>>
@@ -123,6 +139,9 @@ InOrder == dlv = SelectSeq(acc, LAMBDA i : i \notin lost /\ i \notin InFlight)
 Whole == /\ Range(acc) = InFlight \cup Range(dlv) \cup lost
          /\ Len(acc) = Len(q) + Len(dlv) + Cardinality(lost)
 LedgerBalanced == arrived = handed + closed
+\* a delivered message is immutable: whatever happens on the socket afterwards, the caller finds in it the
+\* descriptors (same files, same order) and the credentials it was delivered with
+DeliveredImmutable == \A j \in DOMAIN held : held[j].cur = held[j].orig
 \* every packet in flight and every future packet can be decoded
 StreamInSync ==
   layer = "gob" =>
